@@ -10,22 +10,31 @@ repo = sys.argv[1] if len(sys.argv) > 1 else "/repo"
 root = "/verif/seeded"
 notes = json.load(open("/verif/tools/seeded_notes.json")) if os.path.exists("/verif/tools/seeded_notes.json") else {}
 rows = []
-for d in sorted(glob.glob(os.path.join(root, "*/"))):
+# parallel use: REEVAL_SHARD=i/n evaluates every n-th change on the given eval worktree and only
+# updates meta.json; REEVAL_INDEX_ONLY=1 then rebuilds INDEX.md from the meta files without running anything
+shard = os.environ.get("REEVAL_SHARD")
+index_only = os.environ.get("REEVAL_INDEX_ONLY") == "1"
+for di, d in enumerate(sorted(glob.glob(os.path.join(root, "*/")))):
+    if shard:
+        si, sn = map(int, shard.split("/"))
+        if di % sn != si:
+            continue
     sid = os.path.basename(d.rstrip("/"))
     patch = os.path.join(d, "patch.diff")
     metap = os.path.join(d, "meta.json")
     if not os.path.exists(patch) or not os.path.exists(metap):
         continue
     meta = json.load(open(metap))
-    p = subprocess.run(["/verif/tools/try_mutation.sh", patch, repo], capture_output=True, text=True, errors="replace")
-    out = p.stdout
-    fired = [l.strip() for l in out.split("\n") if l.startswith("    ")]
-    props = sorted({l.split()[1] for l in out.split("\n") if l.startswith("FIRED")})
-    applies = "does not apply" not in out
-    meta["caught_by_static_checks"] = p.returncode == 1
-    meta["properties_fired"] = props
-    meta["rules_fired"] = fired
-    meta["patch_applies_to_current_tree"] = applies
+    if not index_only:
+        p = subprocess.run(["/verif/tools/try_mutation.sh", patch, repo], capture_output=True, text=True, errors="replace")
+        out = p.stdout
+        fired = [l.strip() for l in out.split("\n") if l.startswith("    ")]
+        props = sorted({l.split()[1] for l in out.split("\n") if l.startswith("FIRED")})
+        applies = "does not apply" not in out
+        meta["caught_by_static_checks"] = p.returncode == 1
+        meta["properties_fired"] = props
+        meta["rules_fired"] = fired
+        meta["patch_applies_to_current_tree"] = applies
     n = notes.get(sid, {})
     meta["neutralised_by_fix"] = bool(n.get("neutralised"))
     if n:
@@ -51,6 +60,8 @@ for d in sorted(glob.glob(os.path.join(root, "*/"))):
     json.dump(meta, open(metap, "w"), indent=1)
     rows.append((sid, meta))
 
+if shard:
+    print("shard", shard, "done:", len(rows)); sys.exit(0)
 with open(os.path.join(root, "INDEX.md"), "w") as f:
     f.write("# Seeded changes (independent red-team mutations)\n\n")
     f.write("Each directory holds `patch.diff` (production change only), the demonstration (`*.txt`, copy to the\n"
